@@ -311,6 +311,49 @@ fn shift_twins(a: &Item, st: &mut Stats) {
             }
         }
     }
+    // near twins: the LAST character of the language / script / region / first variant changed (a
+    // comparison key that keeps only the leading bytes of a subtag cannot tell them apart)
+    let bump = |s: &str| -> String {
+        let mut v = s.as_bytes().to_vec();
+        if let Some(l) = v.last_mut() {
+            *l = match *l {
+                b'z' => b'y',
+                b'Z' => b'Y',
+                b'9' => b'8',
+                c => c + 1,
+            };
+        }
+        String::from_utf8_lossy(&v).to_string()
+    };
+    let mut near: Vec<values::Parts> = vec![];
+    if base.lang != "und" && bump(&base.lang) != "und" {
+        let mut p = base.clone();
+        p.lang = bump(&base.lang);
+        near.push(p);
+    }
+    if let Some(s) = &base.script {
+        let mut p = base.clone();
+        p.script = Some(bump(s));
+        near.push(p);
+    }
+    if let Some(r) = &base.region {
+        let mut p = base.clone();
+        p.region = Some(bump(r));
+        near.push(p);
+    }
+    if let Some(v) = base.variants.first() {
+        let mut p = base.clone();
+        p.variants[0] = bump(v);
+        near.push(p);
+    }
+    for p in near {
+        if let Ok(Some(loc)) = guard(|| values::build_parts(&p)) {
+            let tw = item(loc, values::parts_case(&p));
+            st.class("near twin (last character of one subtag changed)");
+            check_pair(a, &tw, st, Count::No);
+            check_pair(&tw, a, st, Count::No);
+        }
+    }
     for p in twins.into_iter().take(6) {
         let Ok(Some(loc)) = guard(|| values::build_parts(&p)) else {
             st.class("shift twin not accepted (skipped)");
